@@ -233,7 +233,7 @@ class C12:
             toks = ts + [gen.randcase(rng, b"chunked")]
             cut = rng.below(len(toks)) if rng.chance(1, 4) and len(toks) > 1 else 0
             def fmt(tt):
-                return rng.pick([b", ", b",", b" , ", b",\t"]).join(rng.pick([b"", b" "]) + gen.randcase(rng, t) for t in tt)
+                return rng.pick([b", ", b",", b" , ", b",\t", b"\t, ", b" \t,\t "]).join(rng.pick([b"", b" "]) + gen.randcase(rng, t) for t in tt)
             te_hdrs = []
             if cut:
                 te_hdrs.append((gen.randcase(rng, b"Transfer-Encoding"), fmt(toks[:cut]).strip(b" \t")))
@@ -259,7 +259,9 @@ class C12:
                 body += b"%x\r\n" % m + payload[pos:pos + m] + CRLF
                 pos += m
             body += b"0\r\n" + b"".join(a + b": " + b + CRLF for a, b in trs) + CRLF
-            s = b"HTTP/1.1 200 OK\r\n" + b"".join(a + b": " + b + CRLF for a, b in hs) + CRLF + body
+            # the status code does not enter the framing decision (C04): codes that *semantically* carry no body included
+            code = rng.pick([b"200", b"200", b"200", b"100", b"101", b"199", b"204", b"205", b"304", b"404", b"500", b"999", b"0", b"1"])
+            s = b"HTTP/1.1 " + code + b" " + rng.pick([b"OK", b"Not Modified", b"", b"No Content"]) + CRLF + b"".join(a + b": " + b + CRLF for a, b in hs) + CRLF + body
             g = Group("w%d" % k, "dechunk-rewrite", {"stream": s.hex(), "headers": [[a.hex(), b.hex()] for a, b in hs],
                                                     "trailers": [[a.hex(), b.hex()] for a, b in trs], "ts": [t.hex() for t in ts], "payload": payload.hex()})
             g.add("whole", gen.resp_op(tree, ov, None, [s]))
